@@ -453,9 +453,17 @@ SHAPES = {
 }
 
 
-def _protocol_cases():
+SHAPES4 = {
+    "chain4": [("A", []), ("B", ["A"]), ("C", ["B"]), ("D", ["C"])],
+    "diamond": [("A", []), ("B", ["A"]), ("C", ["A"]), ("D", ["B", "C"])],
+    "fan": [("A", []), ("B", ["A"]), ("C", ["A"]), ("D", ["A"])],
+    "join3": [("A", []), ("B", []), ("C", []), ("D", ["A", "B", "C"])],
+}
+
+
+def _protocol_cases(shapes=None):
     cases = []
-    for shape, decl in SHAPES.items():
+    for shape, decl in (shapes or SHAPES).items():
         names = [n for n, _ in decl]
         for order in itertools.permutations(names):
             cases.append(dict(shape=shape, order=list(order), refit=None))
@@ -466,7 +474,7 @@ def _protocol_cases():
     return cases
 
 
-@contract(None, ["C14", "C09", "C19"], _protocol_cases(), name="depfunc.protocol")
+@contract(None, ["C14", "C09", "C19"], _protocol_cases(), name="depfunc.protocol", thorough_cases=_protocol_cases(SHAPES4))
 class DepProtocol(Contract):
     """histories: whatever the order of the fit calls (and after a re-fit), every dependence function that uses
     others ends with parameters from a fit performed AFTER the last fit of each function it uses, against their
@@ -498,7 +506,7 @@ class DepProtocol(Contract):
 
     def body(self, itp, case, args, kwargs):
         cx = itp.cx
-        decl = SHAPES[case["shape"]]
+        decl = {**SHAPES, **SHAPES4}[case["shape"]]
         objs = {}
         for name, deps in decl:
             params = ["p", "q"] + [f"d{j}" for j in range(len(deps))]
@@ -522,7 +530,7 @@ class DepProtocol(Contract):
         if out.outcome != "return":
             cx.oblige("post.returns", False, "post", f"raised {out.exc}: {out.msg}")
             return
-        decl = dict(SHAPES[case["shape"]])
+        decl = dict({**SHAPES, **SHAPES4}[case["shape"]])
         last = {}
         for t, ev in enumerate(self.events):
             for name, o in self.objs.items():
@@ -545,7 +553,7 @@ class DepProtocol(Contract):
     def replay(self, case, ob):
         import numpy as np
         import virocon
-        decl = SHAPES[case["shape"]]
+        decl = {**SHAPES, **SHAPES4}[case["shape"]]
         rng = np.random.default_rng(2)
 
         def build():
